@@ -16,7 +16,7 @@ func kindClass(k string) string {
 	switch k {
 	case kWorker, kWorkerRun:
 		return "worker"
-	case kSvc, "svc_pre":
+	case kSvc, "svc_pre", "svc_loop":
 		return "service worker"
 	case kTaskQ, kTaskP, kTaskA, kTaskS, kTaskO:
 		return "task"
@@ -62,6 +62,8 @@ func c05Cases(cfg vlib.Cfg) []*c05Spec {
 			sp = c05SlotStarveCase(r)
 		case i%40 == 17:
 			sp = c05EarlyContextCase(r)
+		case i%40 == 37:
+			sp = c05SvcLoopCase(r)
 		case i%3 == 1:
 			sp = c05PairCase(r, i/3)
 		case i%30 == 11:
@@ -512,6 +514,40 @@ func c05EarlyContextCase(r *vlib.Rand) *c05Spec {
 	sp.Mods = []*c05Mod{ms, dep}
 	if sp.Mgmt && r.Bool() {
 		sp.StopVia, sp.Disable = "manage", []string{"ma"}
+	}
+	return sp
+}
+
+// c05SvcLoopCase: many service workers of one module that restart all the time (their
+// function returns ErrRestartNow at once, or an error with a 1 ms back-off) - far more
+// runnable goroutines than Ps (the child runs with GOMAXPROCS=2), so that at the moment
+// of the stop they are parked at arbitrary instructions of portbase's restart loop.
+func c05SvcLoopCase(r *vlib.Rand) *c05Spec {
+	sp := &c05Spec{Class: "svcloop", Limit: 64, StopTimeoutMs: c05StopTimeoutMs, StopVia: "shutdown", GoMaxProcs: 2}
+	// many small modules rather than one big one: a module's stop can only complete
+	// without a worker that is parked inside the restart loop if its other workers are
+	// done, and the parked goroutine only comes late if plenty of other goroutines (the
+	// workers and stoppers of the other modules) are queued in front of it
+	k := vlib.Pick(r, 30, 40, 50)
+	j := 0
+	for mi := 0; mi < k; mi++ {
+		ms := &c05Mod{Name: fmt.Sprintf("s%02d", mi), StopDelayMs: 0, StopNil: r.Chance(1, 3)}
+		n := r.Range(1, 3)
+		for x := 0; x < n; x++ {
+			it := &c05Item{ID: fmt.Sprintf("sl%d", j), Kind: "svc_loop", Settled: true, Wait: "self", Cycle: 1}
+			if j%5 == 4 {
+				it.RunMs = 1 // restarts through the back-off path (plain error, back-off 1 ms x failure count)
+			}
+			j++
+			ms.Items = append(ms.Items, it)
+		}
+		sp.Mods = append(sp.Mods, ms)
+	}
+	if r.Bool() {
+		sp.Mgmt, sp.StopVia = true, "manage"
+		for mi := 0; mi < k; mi += 2 {
+			sp.Disable = append(sp.Disable, sp.Mods[mi].Name)
+		}
 	}
 	return sp
 }
